@@ -5,7 +5,7 @@
 
 package push
 
-//@ unit setup_sweep props=C11 files=setup.go nilchecks=on nonnil_params=on dispenser_variants=on exclude=`push\.parsePushRules$` filter=`.`
+//@ unit setup_sweep props=C11 files=setup.go nilchecks=on nonnil_params=on dispenser_variants=on exclude=`push\.parsePushRules(\$1)?$` filter=`.`
 //@ // Safety sweep of this directive's setup code: index, slice, division, nil-map store, nil dereference, explicit panic,
 //@ // and termination of the loops driven by the token cursor. No functional contract; callees in the dispenser through their contracts.
 //@ use casketfile/contracts_verif.go:dispenser_api
@@ -15,3 +15,22 @@ package push
 //@ unit link_header_sweep props=C19 files=link_parser.go,handler.go nilchecks=on nonnil_params=on filter=`.`
 //@ // Link headers come from backends: zero-annotation safety sweep of the parser and of the push handler's use of it
 //@ use @verif/specs/stdlib.spec:stdlib
+
+//@ unit push_rules props=C11 nilchecks=on dispenser_variants=on filter=`push\.parsePushRules$|push\.parsePushRules\$1$`
+//@ // the parser of the `push` directive: the rule a line adds resources to is always one that exists (taken from the
+//@ // table under its path or just created and entered there); safety and termination for every token sequence
+//@ use casketfile/contracts_verif.go:dispenser_api
+//@ use @verif/specs/stdlib.spec:stdlib
+//@ func validateMethod
+//@ func validateHeader
+//@ func setMethodOp
+//@ func setHeaderOp
+//@ func parsePushRules$1
+//@   requires c != nil
+//@   modifies Dispenser.cursor, Dispenser.nesting, ptr:[]github.com/tmpim/casket/caskethttp/push.Resource, ptr:[]github.com/tmpim/casket/caskethttp/push.ruleOp
+//@   ensures [cursor_monotone] c.Dispenser.cursor >= old(c.Dispenser.cursor)
+//@   loop 1 invariant c != nil && c.Dispenser.cursor >= old(c.Dispenser.cursor)
+//@ func parsePushRules
+//@   requires c != nil
+//@   loop 1 invariant c != nil && rules != nil && forallT(k, string, has(rules, k) ==> rules[k] != nil)
+//@   loop 2 invariant c != nil && rules != nil && rule != nil && forallT(k, string, has(rules, k) ==> rules[k] != nil) && 1 <= i
